@@ -7,6 +7,8 @@ import FP.Props.C04
 #print axioms FP.Props.C04.registered_function_is_local
 #print axioms FP.Props.C04.shared_table_would_leak
 #print axioms FP.Props.C04.no_package_variable_writes
+#print axioms FP.Props.C04.no_process_state_written_after_init
+#print axioms FP.Props.C04.package_variables_as_audited
 #print axioms FP.Props.C04.disciplined_set
 #print axioms FP.Props.C04.interleave_deterministic
 #print axioms FP.Props.C04.reads_independent_of_schedule
